@@ -1,11 +1,13 @@
 import Driver.Util
 import Driver.Mac
+import Driver.Dev
 /-! Suite C07: twin runs on the model (see `Driver.Mac.runTwin`). -/
 namespace Driver.C07
 
 def handle (ws : List String) : String :=
   match ws with
   | "mac" :: rest => s!"{Driver.Mac.runTwin rest}|-"
+  | "adev" :: rest => s!"{Driver.Dev.run rest} ## oracle=ok|-"
   | _ => "bad-op"
 
 end Driver.C07
